@@ -10,21 +10,25 @@ from harness.rigs import software as rig
 
 MANIFEST = {
     "text": "Lean 4 proof about an executable model of Service / Application / Software (lifecycle methods, request validators, "
-            "countdowns) and of a node's software layer (SoftwareManager.install/uninstall, the four registries, request routes, "
-            "ticks and power events fanned out to every instance, get_open_ports, payload delivery): every operation moves a service "
-            "or application only along the documented transitions; a lifecycle request succeeds exactly in its documented source "
+            "countdowns) and of a node's software layer (SoftwareManager.install with its 'already installed' guard and the eviction "
+            "of an installed instance of the same name, uninstall, the registries incl. the class map, request routes, ticks and "
+            "power events fanned out to every instance, get_open_ports, payload delivery, send): every operation moves a service or "
+            "application only along the documented transitions; a lifecycle request succeeds exactly in its documented source "
             "states with the node ON and changes nothing otherwise; restart completes at the (d+1)-th and install at the max(1,d)-th "
-            "tick delivered to the instance, ticks being delivered only while the node is ON and no request addressed to another "
-            "instance delivering anything; apply_timestep never raises on reachable states; an open port always has a RUNNING owner; "
-            "a payload gets past the running-guard only of RUNNING software on an ON node (partial: classes whose receive() has no "
-            "guard are excluded by an explicit hypothesis, with a proved counterexample); the registries agree after every "
-            "install/uninstall sequence that never installs an already-installed name (partial: the dead 'already installed' guard "
-            "F-22 is excluded by hypothesis, with a proved counterexample). Tie: guard tables, validators, countdown idioms, enum "
-            "values, defaults, the shipped-class table, the docs masking table regenerated from the source (Gen/Software.lean) with "
-            "obligations C13_gen_*; differential rig R-svc on a real Computer over every shipped service and application class.",
+            "tick delivered to the instance — stated both per instance and as ONE theorem over Node.run (refinement along any "
+            "operation sequence, ticks delivered only by apply_timestep while the node is ON or by a direct call, nothing else "
+            "touching the countdown); apply_timestep never raises on reachable states; an open port always has a RUNNING owner; a "
+            "payload gets past the running-guard, and send() hands a payload on, only for RUNNING software on an ON node (full: "
+            "every shipped receive() has the guard); the registries agree after EVERY install/uninstall sequence (full: no freshness "
+            "hypothesis) and installs/uninstalls never raise. Tie: guard tables, validators, countdown idioms, enum values, defaults, "
+            "the shipped-class table (every receive() guarded), the install guard / eviction / class-map writes / uninstall "
+            "clean-ups, the docs masking table regenerated from the source (Gen/Software.lean) with obligations C13_gen_*; "
+            "differential rig R-svc on real Computer, Server, Router, Switch and Firewall nodes over every shipped service and "
+            "application class.",
     "note": "C13-specific: payload *processing* of each class is not modelled (only routing and the running-guard); class-specific "
             "internals that call lifecycle methods themselves (C2Beacon closing itself on time-out, `execute` requests) are exercised "
-            "only as far as the generic requests reach; DatabaseService's nested FTPClient install is driven as two operations.",
+            "only as far as the generic requests reach; DatabaseService's nested FTPClient install is driven as two operations; "
+            "connection bookkeeping (add_connection / OVERWHELMED) is not modelled; frames are modelled for HostNode only.",
     "technique": "Lean 4 theorems over executable lifecycle and registry models; models tied by regenerated tables and a differential rig",
     "design_ref": "5/C13",
 }
